@@ -427,7 +427,7 @@ func mergeRefs(c *Term, a, b *RefV) *RefV {
 				}
 			}
 			if io, ok := o.(*IfaceVal); ok {
-				if ir, ok := r.(*IfaceVal); ok && types.Identical(io.T, ir.T) {
+				if ir, ok := r.(*IfaceVal); ok && types.Identical(io.T, ir.T) && (io.T != rtypeModelType || refIdent(io) == refIdent(ir)) {
 					og := out.Alts[i].G
 					out.Alts[i] = RefAlt{Or(og, g), &IfaceVal{T: io.T, V: iteValue(g, ir.V, io.V)}}
 					return
